@@ -43,11 +43,33 @@ DEFAULT_VARIANTS = [
     dict(limb_min=0, abstract=False, logic=None, share=0.2),
 ]
 
-def prove(goal, assumptions=(), timeout=60.0, variants=None, cross=None):
+def _prove_bv(goal, assumptions, budget):
+    """bit-precise member of the portfolio (bvexact.TBV): returns (status, model-or-None, seconds, note)"""
+    from . import bvexact
+    t0 = time.time()
+    try:
+        tr = bvexact.TBV()
+        with bvexact.exact_mod():
+            asm = [a(tr) if callable(a) else tr.bool(a) for a in assumptions]
+            g = goal(tr)
+        if not z3.is_bool(g): return 'unknown', None, 0.0, 'goal not boolean'
+        if bvexact._has_int(g) or any(bvexact._has_int(a) for a in asm): return 'unknown', None, 0.0, 'integer-level atoms'
+    except (NotImplementedError, z3.Z3Exception, TypeError, AttributeError) as e:
+        return 'unknown', None, time.time() - t0, 'encoder: %s' % str(e)[:80]
+    sv = z3.Solver(); sv.add(asm); sv.add(z3.Not(g))
+    r, dt = _check(sv, budget * 1000)
+    if r == z3.unsat: return 'unsat', None, dt, ''
+    if r == z3.sat:
+        m = sv.model(); mv = {}
+        for nm, var in bvexact.consts(asm + [g]).items(): mv[nm] = m.eval(var, model_completion=True).as_long()
+        return 'sat', mv, dt, ''
+    return 'unknown', None, dt, ''
+
+def prove(goal, assumptions=(), timeout=60.0, variants=None, cross=None, bitprecise=True):
     """goal(tr) -> Int/Bool-level formula that must hold for all inputs satisfying the assumptions.
        assumptions: z3 Bool terms over BV (translated) or callables tr -> formula.
        Returns Res: 'unsat' = proved; 'sat' = counterexample over the input variables (tr.vars names); 'unknown'."""
-    t_start = time.time(); abstract_sat = False; last = 'unknown'; info = []
+    t_start = time.time(); abstract_sat = False; last = 'unknown'; info = []; approx_sat = None
     for v in (variants or DEFAULT_VARIANTS):
         budget = max(2.0, timeout * v['share'])
         try:
@@ -87,8 +109,17 @@ def prove(goal, assumptions=(), timeout=60.0, variants=None, cross=None):
             for nm, var in tr.vars.items():
                 x = m.eval(var, model_completion=True)
                 mv[nm] = x.as_long()
+            if getattr(tr, 'approx', 0) > 0 and bitprecise:
+                # the model was found under over-approximated and/or/xor of symbolic words: it may be spurious, decide bit-precisely
+                approx_sat = Res('sat', model=mv, t=time.time() - t_start, variant=tag + '(approximate bit operations)', info=' '.join(info)); break
             return Res('sat', model=mv, t=time.time() - t_start, variant=tag, info=' '.join(info))
         if time.time() - t_start > timeout: break
+    if bitprecise:
+        st, mv, dt, note = _prove_bv(goal, assumptions, max(5.0, timeout * 0.5))
+        info.append('bitprecise/bv256:%s:%.2fs%s' % (st, dt, (' ' + note) if note else ''))
+        if st == 'unsat': return Res('unsat', t=time.time() - t_start, variant='bitprecise/bv256', info=' '.join(info))
+        if st == 'sat': return Res('sat', model=mv, t=time.time() - t_start, variant='bitprecise/bv256', info=' '.join(info))
+    if approx_sat is not None: approx_sat.info = ' '.join(info); return approx_sat
     return Res('unknown', t=time.time() - t_start, info=' '.join(info))
 
 def prove_plain(formula_neg_parts, timeout=60.0, logic=None):
